@@ -7,7 +7,7 @@ COMMON_ASSUME = [
 
 PROPS = {
     "C20": {
-        "extract": ["checked_add_signed"],
+        "extract": ["checked_add_signed", "displace_sites"],
         "rule": "cases = all 65 536 (u8,i8) pairs + boundary lattice x random (half steered to the 0 / MAX boundary) for 16/32/64/128-bit and usize; "
                 "non-trivial = the case exercises a decided outcome (tag some/none) — every generated pair does; distinct = distinct (width,l,r)",
         "trivial_tags": [],
@@ -53,7 +53,7 @@ MP4_RULE = ("cases = `remux` generator (1-4 traks, stco/co64 mix, unknown/uuid s
             "one tenth byte-flipped and one tenth truncated; plus moov-first (no-op) files. non-trivial = the scan got past the ftyp box (any tag other than E-InvalidBoxLayout/E-UnsupportedFormat on a 0-1 box file); distinct = distinct case lines")
 
 PROPS["C01"] = {
-    "extract": ["checked_add_signed"],
+    "extract": ["checked_add_signed", "displace_sites"],
     "rule": MP4_RULE,
     "trivial_if_any": ["boxes0", "boxes1"],
     "shards": {"quick": 4, "thorough": 16},
